@@ -339,6 +339,12 @@ pub trait Sim {
 
     fn assumptions(prop: &str) -> Vec<String>;
 
+    /// Scenario predicate tags for violations whose class comes from the death of a worker (trap, abort,
+    /// hang): the child cannot report them itself.
+    fn death_tags(_sc: &Self::Sc) -> String {
+        String::new()
+    }
+
     /// Which components ran real code and which ran a stub: `(real, stub)`.
     fn components(_prop: &str) -> (Vec<String>, Vec<String>) {
         (
